@@ -41,7 +41,6 @@ func propAbsDebug(c *Ctx) {
 	}
 }
 
-
 func init() { register("PANICS", propPanicsDebug) }
 
 func propPanicsDebug(c *Ctx) {
